@@ -230,6 +230,25 @@ func c05Catalog() []progInput {
 	add := func(u, l string, f uint32) {
 		out = append(out, progInput{Unlock: h(u), Lock: h(l), Flags: f, Ctx: defaultCtx(), Src: "catalog"})
 	}
+	// locking scripts that only LOOK like pay-to-script-hash: 23 bytes, OP_HASH160 first, OP_EQUAL last, but
+	// no 20-byte push in between - ordinary scripts under the P2SH flag (no push-only demand, no redeem script)
+	{
+		raw := func(u, l []byte, f uint32) {
+			out = append(out, progInput{Unlock: u, Lock: l, Flags: f, Ctx: defaultCtx(), Src: "catalog"})
+		}
+		nops := func(k int) []byte { return bytes.Repeat([]byte{0x61}, k) }
+		like1 := append(append([]byte{0xa9, 0x76}, nops(20)...), 0x87)                                   // HASH160 DUP NOP*20 EQUAL
+		like2 := append(append([]byte{0xa9, 0x13}, bytes.Repeat([]byte{0x07}, 19)...), 0x75, 0x87)       // HASH160 <19 bytes> DROP EQUAL (needs two items)
+		like3 := append(append([]byte{0xa9, 0x4c, 0x12}, bytes.Repeat([]byte{0x07}, 18)...), 0x75, 0x87) // the push written with OP_PUSHDATA1
+		for _, f := range []uint32{uint32(scriptflag.Bip16), uint32(scriptflag.Bip16 | scriptflag.VerifyCleanStack), 0, g | uint32(scriptflag.Bip16)} {
+			raw([]byte{0x00}, like1, f)       // a last push that would be a false redeem script
+			raw([]byte{0x51}, like1, f)       //
+			raw([]byte{0x51, 0x61}, like1, f) // not push-only
+			raw([]byte{0x01, 0x6a}, like1, f) // a last push that would be a failing redeem script (OP_RETURN)
+			raw(append(gen.Push(gen.Hash160([]byte{0x00})), 0x00), like2, f)
+			raw(append(gen.Push(gen.Hash160([]byte{0x51})), 0x01, 0x51), like3, f)
+		}
+	}
 	for _, f := range []uint32{0, g} {
 		add("1 TOALTSTACK RETURN", "FROMALTSTACK", f)              // alt stack is per script
 		add("1 TOALTSTACK", "FROMALTSTACK", f)                     //
